@@ -367,8 +367,13 @@ _sink(struct pcp_server *svr, char *targ, BUF *bufp) {
                 }
                 if (svr->preserve)
                     (void)chmod(np, mode);
-            } else if (mkdir(np, mode) < 0)
-                goto bad;
+            } else {
+                if (mkdir(np, mode) < 0)
+                    goto bad;
+                /* mkdir ignores the set-id bits and inherits set-group-ID */
+                if (svr->preserve)
+                    (void)chmod(np, mode);
+            }
 
             /* recursively go down a directory */
             _sink(svr, np, bufp);
